@@ -23,8 +23,10 @@ class Loop:
 class Contract:
     def __init__(self, qualname, setup=None, requires=None, ensures=None, raises=None, modifies=None,
                  loops=None, local_types=None, returns=None, inline=False, ghost_pre=None,
-                 variants=None, generator=False, exc_any=None, note='', hints=None):
+                 variants=None, generator=False, exc_any=None, note='', hints=None, facts=None):
         self.hints = hints
+        self.facts = facts                  # c -> [(label, Bool)]: facts true of every real execution (e.g. len(d) == 0 iff d has no
+        #                                     key); assumed at entry and after a call by contract, never asserted at call sites
         self.qualname = qualname
         self.setup = setup                  # (eng, st) -> {param: SV}        (symbolic arguments for verifying the body)
         self.requires = requires or (lambda c: [])
@@ -57,6 +59,8 @@ class Ctx:
     # ---- arguments / locals
     def a(self, name):
         v = self.args[name]
+        if isinstance(v, SNone):
+            return NONE
         return getattr(v, 't', v)
 
     def sv(self, name):
